@@ -302,3 +302,6 @@ def check(P, R, tier):
     # already passed the handler (C05.K3: in particular the synchronizer may only be entered from process_block / commit)
     from ..common import fold
     fold(R, P, "c05", ("C05.K3",), "C08.D1", 10)
+    # D8 "locally stored": the payload waiter learns that a batch arrived from Store::notify_read, so a waiter may only be woken
+    # by a write that was actually put, with the value that was put, and a notify-read answers from the database (C16.T3/T4)
+    fold(R, P, "c16", ("C16.T3", "C16.T4"), "C08.D8", 14)
